@@ -563,9 +563,27 @@ def gen_write():
 _HBH = "message.header.hop_by_hop_identifier"
 
 
-def _is_waiting_table_sub(node):
+_E2E_H = "message.header.end_to_end_identifier"
+
+
+def _is_waiter_key(node, keyname=None):
+    """the key of the waiter table: the hop-by-hop identifier, or the pair (hop-by-hop, end-to-end), or the local name that
+    was bound to that pair"""
+    if _dotted(node) == _HBH:
+        _KEY_KINDS.append("hbh")
+        return True
+    if isinstance(node, ast.Tuple) and [_dotted(e) for e in node.elts] == [_HBH, _E2E_H]:
+        _KEY_KINDS.append("pair")
+        return True
+    return keyname is not None and isinstance(node, ast.Name) and node.id == keyname
+
+
+_KEY_KINDS = []
+
+
+def _is_waiting_table_sub(node, keyname=None):
     return (isinstance(node, ast.Subscript) and _is_self_attr(node.value, "_answer_waiting")
-            and _dotted(node.slice) == _HBH)
+            and _is_waiter_key(node.slice, keyname))
 
 
 def _is_plain_log(st):
@@ -586,12 +604,15 @@ def _sender_program(fn, path):
             raise TranslationError(f"{path}:{st.lineno}: waiter table / send before route_request")
     if start is None:
         raise TranslationError(f"{path}:{fn.lineno}: route_request call not found in send_request")
-    prog, waiter = [], None
+    prog, waiter, keyname = [], None, None
     for st in body[start:]:
         if isinstance(st, ast.Assign) and len(st.targets) == 1 and isinstance(st.targets[0], ast.Name) \
                 and isinstance(st.value, ast.Call) and _dotted(st.value.func) == "WaitingMessage" and not st.value.args:
             waiter = st.targets[0].id
-        elif isinstance(st, ast.Assign) and len(st.targets) == 1 and _is_waiting_table_sub(st.targets[0]) \
+        elif isinstance(st, ast.Assign) and len(st.targets) == 1 and isinstance(st.targets[0], ast.Name) \
+                and isinstance(st.value, ast.Tuple) and _is_waiter_key(st.value) and keyname is None and not prog:
+            keyname = st.targets[0].id          # a local name for the key, bound before anything else happens
+        elif isinstance(st, ast.Assign) and len(st.targets) == 1 and _is_waiting_table_sub(st.targets[0], keyname) \
                 and isinstance(st.value, ast.Name) and st.value.id == waiter:
             prog.append("SReg")
         elif isinstance(st, ast.Expr) and isinstance(st.value, ast.Call) and _dotted(st.value.func) == "self.node.send_message" \
@@ -620,7 +641,7 @@ def _sender_program(fn, path):
                     raise TranslationError(f"{path}:{h.lineno}: handler of the waiting block does not re-raise")
             prog.append("SWait")
             fb = st.finalbody
-            if not (len(fb) == 1 and isinstance(fb[0], ast.Delete) and len(fb[0].targets) == 1 and _is_waiting_table_sub(fb[0].targets[0])):
+            if not (len(fb) == 1 and isinstance(fb[0], ast.Delete) and len(fb[0].targets) == 1 and _is_waiting_table_sub(fb[0].targets[0], keyname)):
                 raise TranslationError(f"{path}:{st.lineno}: finally block is not a single del of the waiter entry")
             prog.append("SDel")
         elif _is_plain_log(st):
@@ -638,7 +659,7 @@ def _dispatcher_program(fn, path):
     st = body[i] if i < len(body) else None
     if isinstance(st, ast.Assign) and len(st.targets) == 1 and isinstance(st.targets[0], ast.Name) \
             and isinstance(st.value, ast.Call) and isinstance(st.value.func, ast.Attribute) and st.value.func.attr == "get" \
-            and _is_self_attr(st.value.func.value, "_answer_waiting") and [_dotted(a) for a in st.value.args] == [_HBH] \
+            and _is_self_attr(st.value.func.value, "_answer_waiting") and len(st.value.args) == 1 and _is_waiter_key(st.value.args[0]) \
             and not st.value.keywords:
         waiter = st.targets[0].id
         prog.append("DGet")
@@ -688,8 +709,11 @@ def _dispatcher_program(fn, path):
 def gen_handoff():
     apath, atree = _parse("node/application.py")
     ac = _find_class(atree, "Application", apath)
+    del _KEY_KINDS[:]
     sp = _sender_program(_find_func(ac, "send_request", apath), apath)
     dp = _dispatcher_program(_find_func(ac, "receive_answer", apath), apath)
+    if len(set(_KEY_KINDS)) != 1:
+        raise TranslationError(f"{apath}: send_request and receive_answer do not use the same key for _answer_waiting: {_KEY_KINDS}")
     # no subclass the library ships may replace the two methods
     for n in atree.body:
         if isinstance(n, ast.ClassDef) and n.name != "Application":
